@@ -127,9 +127,13 @@ def viability_condition(ctx, fi: FunctionInfo):
             while isinstance(inner, ast.UnaryOp) and isinstance(inner.op, ast.Not):
                 neg = not neg
                 inner = inner.operand
+            red = None
             if isinstance(inner, ast.Call) and isinstance(inner.func, ast.Name) and inner.func.id in ("all", "any") and len(inner.args) == 1:
-                arg = inner.args[0]
-                kind = inner.func.id
+                red = (inner.func.id, inner.args[0])
+            elif isinstance(inner, ast.Call) and isinstance(inner.func, ast.Attribute) and inner.func.attr in ("all", "any") and not inner.args:
+                red = (inner.func.attr, inner.func.value)  # vectorised spelling: same truth value
+            if red is not None:
+                kind, arg = red
                 # MINFREQ: all(F["frequency"] >= self.min_freq_mod)   /  not any(F["frequency"] < t)
                 c2 = cmp_canon(arg)
                 if c2 and ("['frequency']" in c2[0] or "['frequency']" in c2[2]):
